@@ -48,6 +48,10 @@ def run(ctx):
                       "and the link)", floor=1)
     ctx.rule("R08.p", "invalidation before consumers: every internal watcher that only invalidates an expression's cache (rx._invalidate_*) is registered with a precedence strictly lower than "
                       "every internally installed consumer (the sync of references, depends(watch=True) callers), so that within one batch no consumer reads a cache whose invalidation is still queued", floor=2)
+    ctx.rule("R08.w", "link model, resolve_ref: interpreted for a depends method used as a reference whose string specs name a sub-object's parameter and the owner's own parameters in every "
+                      "order (plus a keyword spec and a Parameter object): each spec is resolved relative to the method's owner; the result is exactly the Parameters named", floor=1)
+    ctx.rule("R08.z", "the body of every `with _syncing(...)` holds no suspension point: an override made while an evaluation is pending must be seen as an override (ends the link) -- "
+                      "the same structural fact as R10.a, decided here for the link's lifetime", floor=3)
     ctx.rule("R08.d", "every reference is installed: in Parameter.__set__ the relink decision holds whenever _resolve_ref returned a reference (top-level disjunct `ref is not None`), "
                       "and the constructor records refs[name] = ref under exactly `ref is not None`", floor=2)
     ctx.rule("R08.e", "_sync_refs re-resolves exactly the links one of whose dependencies matches one of the delivered events by (owner identity, name) -- decided by abstract "
@@ -397,6 +401,23 @@ def run(ctx):
     from checks import link_model
     link_model.report(ctx, "C08", "R08.l")
     link_model.report_resolve(ctx, "R08.v")
+    link_model.report_resolve_ref(ctx, "R08.w")
+    # the syncing scope holds no suspension point (shared with R10.a)
+    from checks.c10 import is_syncing_with, SUSPEND, walk_no_nested
+    from engine.effects import walk_stmts as _ws
+    n_sc = 0
+    for f_ in ctx.repo.all_funcs("param"):
+        for st in _ws(f_.node):
+            if isinstance(st, (ast.With, ast.AsyncWith)) and is_syncing_with(st):
+                n_sc += 1
+                susp = [s_ for b_ in st.body for s_ in walk_no_nested(b_) if isinstance(s_, SUSPEND)]
+                if susp:
+                    ctx.fail("R08.z", f_, st, "`%s` keeps the name marked as syncing across `%s`: a plain value assigned while the evaluation is suspended is taken for the sync's own write, "
+                                              "so the override neither ends the link nor removes the source watcher, and the pending result overwrites it" % (
+                                                  norm(st.items[0].context_expr), norm(susp[0])[:60]), key="%s::suspension-in-syncing" % f_.qualname)
+                else:
+                    ctx.ok("R08.z", f_, st, "no suspension point inside the syncing scope")
+    ctx.require(n_sc >= 3, "fewer than 3 syncing scopes found (%d)" % n_sc)
     from checks.shared import invalidation_before_consumers
     invalidation_before_consumers(ctx, "R08.p")
     from checks.shared import dynamic_set_model
